@@ -1520,6 +1520,12 @@ func (self *Analyzer) matchExpression(node pAst.MatchExpression) ast.AnalyzedMat
 		}
 	}
 
+	// Without a default branch, the match can complete without taking any arm (yielding `null`),
+	// even if every arm diverges (or there is no arm at all).
+	if defaultArm == nil && !hadTypeErr && (resultType.Kind() == ast.NeverTypeKind || resultType.Kind() == ast.UnknownTypeKind) {
+		resultType = ast.NewNullType(node.Range)
+	}
+
 	return ast.AnalyzedMatchExpression{
 		ControlExpression: controlExpr,
 		Arms:              arms,
